@@ -275,7 +275,7 @@ func (a *errAnalysis) flow(ev ssa.Value) *errFlow {
 				wrapped, text := wrapsArg(x, v)
 				if !wrapped && text == "" {
 					// a helper of the package that hands its error parameter on (decorated or not)
-					if g := cc.StaticCallee(); g != nil && g.Pkg != nil && g.Pkg.Pkg.Path() == twigPath {
+					if g := cc.StaticCallee(); g != nil && isTwigFn(g) {
 						for ai, arg := range cc.Args {
 							if arg == v && a.forwardsParam(g, ai) {
 								wrapped = true
@@ -742,7 +742,7 @@ func (w *World) loadPartsSet() map[*ssa.Function]bool {
 				instrsOf(f, func(in ssa.Instruction) {
 					if c, ok := in.(ssa.CallInstruction); ok {
 						g := c.Common().StaticCallee()
-						if g != nil && g.Pkg != nil && g.Pkg.Pkg.Path() == twigPath && g.Object() != nil && !g.Object().Exported() && !w.loadParts[g] {
+						if g != nil && isTwigFn(g) && g.Object() != nil && !g.Object().Exported() && !w.loadParts[g] {
 							w.loadParts[g] = true
 							next = append(next, g)
 						}
